@@ -33,4 +33,4 @@ NOT_APPLICABLE = {}
 GCC = "gcc 12 on this machine (x86-64 SysV) is the authority; ctypes is the trusted channel to it"
 
 # properties whose check has been reviewed and is registered in MANIFEST.json
-CLAIMED = ["C01", "C02"]
+CLAIMED = ["C01", "C02", "C03", "C04", "C05", "C23", "C26"]
